@@ -342,6 +342,18 @@ Fixpoint od_norm (v : jv) : jv :=
   | _ => v
   end.
 
+(* ------------------------------------------------------------------ the hypothesis of the round-trip theorems, decidable *)
+Definition num_okb (tok : str) : bool :=
+  (match scan_num tok with Some (t, []) => str_eqb t tok | _ => false end)
+  || str_eqb tok lit_NaN || str_eqb tok lit_Inf || str_eqb tok (45 :: lit_Inf).
+Fixpoint wfb (v : jv) : bool :=
+  match v with
+  | JNum t => num_okb t
+  | JArr l => forallb wfb l
+  | JObj kvs => forallb (fun kv => wfb (snd kv)) kvs
+  | _ => true
+  end.
+
 (* ------------------------------------------------------------------ wire *)
 Fixpoint of_jv (v : jv) : sexp :=
   match v with
@@ -365,6 +377,9 @@ Fixpoint sx_jv (s : sexp) : jv :=
                                          end) l)
   | _ => JNull
   end.
+
+(* entry 34: is the value well-formed in the sense of the round-trip theorems (wfb)? *)
+Definition json_wf_entry (s : sexp) : sexp := of_bool (wfb (sx_jv s)).
 
 (* entry 32: value -> the text of to_json; entry 33: text -> parsed value (as json.loads with OrderedDict) *)
 Definition json_print_entry (s : sexp) : sexp := of_str (to_json_text (sx_jv s)).
